@@ -776,3 +776,146 @@ impl<const N: usize> Driver<N> {
     }
 }
 
+
+/// Loose executor: performs an operation against the storage without a model; results are returned as
+/// short strings for logging. Used where the oracle does not depend on answers (C07, C11, C13).
+pub struct Loose<const N: usize> {
+    pub dir: PathBuf,
+    pub cfg: Cfg,
+    pub storage: Option<Storage<ArrayKey<N>>>,
+    pub next_val: u64,
+    pub worker_dead: bool,
+}
+
+impl<const N: usize> Loose<N> {
+    pub fn new(dir: PathBuf, cfg: Cfg) -> Self {
+        Loose { dir, cfg, storage: None, next_val: 1, worker_dead: false }
+    }
+    pub fn key(&self, k: u16) -> ArrayKey<N> {
+        mk_key::<N>(self.cfg.key_salt, k)
+    }
+    pub async fn open(&mut self, lazy: bool) -> Result<(), String> {
+        let mut s: Storage<ArrayKey<N>> = builder_for(&self.cfg, &self.dir).build().map_err(|e| format!("{:#}", e))?;
+        let r = if lazy { s.init_lazy().await } else { s.init().await };
+        r.map_err(|e| format!("{:#}", e))?;
+        self.storage = Some(s);
+        self.worker_dead = false;
+        Ok(())
+    }
+    pub async fn close(&mut self) -> Result<(), String> {
+        if let Some(s) = self.storage.take() {
+            s.close().await.map_err(|e| format!("{:#}", e))?;
+        }
+        Ok(())
+    }
+    pub async fn barrier(&mut self) -> bool {
+        match self.storage.as_ref() {
+            Some(s) => {
+                let ok = s.verif_barrier(true).await;
+                if !ok {
+                    self.worker_dead = true;
+                }
+                ok
+            }
+            None => true,
+        }
+    }
+    /// returns Ok(description) or Err(error text) of the API call; Restart only closes and reopens
+    pub async fn exec(&mut self, op: &Op) -> Result<String, String> {
+        let s = match self.storage.as_ref() {
+            Some(s) => s,
+            None => return Err("storage not open".into()),
+        };
+        match op {
+            Op::Put { k, ts, meta, size } => {
+                let val = self.next_val;
+                self.next_val += 1;
+                let data = Bytes::from(value_bytes(val, *size));
+                let key = self.key(*k);
+                let r = match meta {
+                    None => s.write(&key, data, BlobRecordTimestamp::new(*ts)).await,
+                    Some(m) => s.write_with(&key, data, BlobRecordTimestamp::new(*ts), meta_of(*m)).await,
+                };
+                r.map(|_| format!("v{}", val)).map_err(|e| format!("{:#}", e))
+            }
+            Op::Del { k, ts, meta, only_if } => {
+                let key = self.key(*k);
+                let r = match meta {
+                    None => s.delete(&key, BlobRecordTimestamp::new(*ts), *only_if).await,
+                    Some(m) => s.delete_with(&key, BlobRecordTimestamp::new(*ts), meta_of(*m), *only_if).await,
+                };
+                r.map(|n| n.to_string()).map_err(|e| format!("{:#}", e))
+            }
+            Op::Close => s.try_close_active_blob().await.map(|_| String::new()).map_err(|e| format!("{:#}", e)),
+            Op::Create => s.try_create_active_blob().await.map(|_| String::new()).map_err(|e| format!("{:#}", e)),
+            Op::Restore => s.try_restore_active_blob().await.map(|_| String::new()).map_err(|e| format!("{:#}", e)),
+            Op::CloseBg => {
+                s.close_active_blob_in_background().await;
+                Ok(String::new())
+            }
+            Op::CreateBg => {
+                s.create_active_blob_in_background().await;
+                Ok(String::new())
+            }
+            Op::RestoreBg => {
+                s.restore_active_blob_in_background().await;
+                Ok(String::new())
+            }
+            Op::ForceUpdate { pred } => {
+                if *pred {
+                    s.force_update_active_blob(|_| true).await;
+                } else {
+                    s.force_update_active_blob(|_| false).await;
+                }
+                Ok(String::new())
+            }
+            Op::Dump | Op::DumpNoWait => {
+                let _ = s.free_excess_resources().await;
+                Ok(String::new())
+            }
+            Op::Offload { needed, level } => {
+                let s = self.storage.as_mut().unwrap();
+                let f = s.offload_buffer(*needed as usize, *level as usize).await;
+                Ok(f.to_string())
+            }
+            Op::Fsync => s.fsyncdata().await.map(|_| String::new()).map_err(|e| e.to_string()),
+            Op::Restart { lazy, .. } => {
+                self.close().await?;
+                self.open(*lazy).await?;
+                Ok(String::new())
+            }
+        }
+    }
+
+    /// runs every query of the public surface for keys 0..n (results ignored)
+    pub async fn query_all(&self, n: u16) {
+        if let Some(s) = self.storage.as_ref() {
+            for k in 0..n {
+                let key = self.key(k);
+                let _ = s.read(&key).await;
+                let _ = s.contains(&key).await;
+                if let Ok(es) = s.read_all_with_deletion_marker(&key).await {
+                    for mut e in es {
+                        let _ = e.load_meta().await;
+                        let _ = e.load_data().await;
+                    }
+                }
+                let _ = s.read_all(&key).await;
+                for m in 0..=self.cfg.n_meta {
+                    let _ = s.read_with(&key, &meta_of(m)).await;
+                }
+                let _ = s.check_filters(&key).await;
+                let _ = BloomProvider::check_filter(s, &key).await;
+            }
+            let _ = s.records_count().await;
+            let _ = s.records_count_detailed().await;
+            let _ = s.records_count_in_active_blob().await;
+            let _ = s.blobs_count().await;
+            let _ = s.disk_used().await;
+            let _ = s.index_memory().await;
+            let _ = s.has_active_blob().await;
+            let _ = BloomProvider::get_filter(s).await;
+            let _ = BloomProvider::filter_memory_allocated(s).await;
+        }
+    }
+}
